@@ -328,11 +328,14 @@ class PermutationVariable(Variable):
 
     model_config = ConfigDict(arbitrary_types_allowed=True)
     _label_encoder: LabelEncoder = PrivateAttr()
+    _labels: list[Any] = PrivateAttr()
 
     def __init__(self, **kwargs: Any):
         super().__init__(**kwargs)
         self._label_encoder = LabelEncoder()
         self._label_encoder.fit(self.items)
+        # one label per declared item, in the encoder's order (the encoder alone keeps one label per distinct item)
+        self._labels = sorted(self.items, key=lambda x: self._label_encoder.transform([x])[0])
 
     def get(self) -> "PermutationVariable":
         return self
@@ -352,7 +355,7 @@ class PermutationVariable(Variable):
 
     def decode(self, value: tuple | list | np.ndarray) -> Any:
         value = self.correct(value)
-        return self._label_encoder.inverse_transform(value)
+        return [self._labels[i] for i in value]
 
     def size(self) -> int:
         return 1
